@@ -799,6 +799,10 @@ impl<'ctx> ByteCompiler<'ctx> {
         }
 
         if binding.local() {
+            #[cfg(boa_verif)]
+            if !self.local_binding_registers.contains_key(&binding) {
+                crate::verif::count_shortcut(crate::verif::Shortcut::LocalRegister);
+            }
             return BindingKind::Local(Some(
                 *self
                     .local_binding_registers
@@ -1272,6 +1276,10 @@ impl<'ctx> ByteCompiler<'ctx> {
             | RelationalOp::GreaterThanOrEqual => {}
             _ => return None,
         }
+        #[cfg(boa_verif)]
+        if self.is_loop_invariant(binary.rhs()) || self.is_loop_invariant(binary.lhs()) {
+            crate::verif::count_shortcut(crate::verif::Shortcut::LoopHoist);
+        }
         // Prefer hoisting RHS (most common pattern: `i < 10`)
         if self.is_loop_invariant(binary.rhs()) {
             let reg = self.register_allocator.alloc();
@@ -1338,6 +1346,16 @@ impl<'ctx> ByteCompiler<'ctx> {
         #[cfg(boa_verif)]
         if crate::verif::fused_branch_off() {
             return None;
+        }
+        #[cfg(boa_verif)]
+        if matches!(
+            op,
+            RelationalOp::LessThan
+                | RelationalOp::LessThanOrEqual
+                | RelationalOp::GreaterThan
+                | RelationalOp::GreaterThanOrEqual
+        ) {
+            crate::verif::count_shortcut(crate::verif::Shortcut::FusedBranch);
         }
 
         let emit_fn: fn(&mut BytecodeEmitter, Address, RegisterOperand, RegisterOperand) = match op
@@ -2298,6 +2316,8 @@ impl<'ctx> ByteCompiler<'ctx> {
                                 #[cfg(boa_verif)]
                                 if crate::verif::const_cache_off() {
                                     self.const_binding_cache.remove(&binding.locator());
+                                } else if self.const_binding_cache.contains_key(&binding.locator()) {
+                                    crate::verif::count_shortcut(crate::verif::Shortcut::ConstCache);
                                 }
                                 self.register_allocator.dealloc(value);
                             }
